@@ -2,10 +2,18 @@
 //! scheduling point (shuttle itself never switches at unlock, which hides "publish before
 //! write" style bugs).
 
-pub use std::sync::{Arc, LockResult, OnceLock, PoisonError, Weak};
+pub use std::sync::{Arc, LockResult, OnceLock, PoisonError, TryLockError, TryLockResult, Weak};
 
 use std::fmt;
 use std::ops::{Deref, DerefMut};
+
+fn map_try<G, W>(r: TryLockResult<G>, wrap: impl Fn(G) -> W) -> TryLockResult<W> {
+    match r {
+        Ok(g) => Ok(wrap(g)),
+        Err(TryLockError::WouldBlock) => Err(TryLockError::WouldBlock),
+        Err(TryLockError::Poisoned(p)) => Err(TryLockError::Poisoned(PoisonError::new(wrap(p.into_inner())))),
+    }
+}
 
 fn map_lock<G, W>(r: LockResult<G>, wrap: impl Fn(G) -> W) -> LockResult<W> {
     match r {
@@ -35,8 +43,20 @@ impl<T: ?Sized> Mutex<T> {
     pub fn lock(&self) -> LockResult<MutexGuard<'_, T>> {
         map_lock(self.0.lock(), |g| MutexGuard { inner: Some(g) })
     }
+    pub fn try_lock(&self) -> TryLockResult<MutexGuard<'_, T>> {
+        map_try(self.0.try_lock(), |g| MutexGuard { inner: Some(g) })
+    }
     pub fn get_mut(&mut self) -> LockResult<&mut T> {
         self.0.get_mut()
+    }
+    pub fn is_poisoned(&self) -> bool {
+        false
+    }
+}
+
+impl<T> From<T> for Mutex<T> {
+    fn from(t: T) -> Self {
+        Self::new(t)
     }
 }
 
@@ -109,6 +129,18 @@ impl Condvar {
         })
     }
 
+    /// shuttle does not model time: a timed wait behaves like `wait` and never times out
+    pub fn wait_timeout<'a, T>(
+        &self,
+        guard: MutexGuard<'a, T>,
+        _dur: std::time::Duration,
+    ) -> LockResult<(MutexGuard<'a, T>, bool)> {
+        match self.wait(guard) {
+            Ok(g) => Ok((g, false)),
+            Err(p) => Err(PoisonError::new((p.into_inner(), false))),
+        }
+    }
+
     pub fn notify_one(&self) {
         self.0.notify_one()
     }
@@ -145,6 +177,12 @@ impl<T: ?Sized> RwLock<T> {
     }
     pub fn write(&self) -> LockResult<RwLockWriteGuard<'_, T>> {
         map_lock(self.0.write(), |g| RwLockWriteGuard { inner: Some(g) })
+    }
+    pub fn try_read(&self) -> TryLockResult<RwLockReadGuard<'_, T>> {
+        map_try(self.0.try_read(), |g| RwLockReadGuard { inner: Some(g) })
+    }
+    pub fn try_write(&self) -> TryLockResult<RwLockWriteGuard<'_, T>> {
+        map_try(self.0.try_write(), |g| RwLockWriteGuard { inner: Some(g) })
     }
     pub fn get_mut(&mut self) -> LockResult<&mut T> {
         self.0.get_mut()
